@@ -27,7 +27,7 @@ PROPS = {
         "assumptions": ["extension values are read from the Debug form of the private structs (Decimal{value}, IPAddr{addr,prefix}, DateTime{epoch}, Duration{ms})"],
     },
     "C20": {
-        "streams": [("c20", 16000, 3000000)],
+        "streams": [("c20", 30000, 3000000)],
         "definitional": False,
         "rule": "documents = valid policies/templates/expressions/EST JSON/schemas (both syntaxes)/entities/contexts/FFI calls/protobuf bytes "
                 "generated from the C01/C02 generators and fixed schemas, then (6%) left valid, (11%) nested 1..48 deep (parentheses, unary operators, "
@@ -39,8 +39,9 @@ PROPS = {
                 "error and warning is rendered (Display, Debug, help, labels read back, related, 3 miette handlers, Report). non-trivial = a mutated "
                 "document that produced a rendered labelled span or still parsed and ran a downstream stage; distinct by family+bytes. "
                 "Request lines = `like` boundary cases (all patterns over {a,b,*} up to length 4 x all texts up to length 4, plus random) against "
-                "the index-form mirror whose reply carries `panic:<site>` / `fuel` outcomes",
-        "theorems": ["no_panic_wildcard", "wmIdx_eq_M"],
+                "the index-form mirror whose reply carries `panic:<site>` / `fuel` outcomes, and datetime() strings (fixed boundary list + 1-2 char "
+                "mutations incl. multi-byte chars) against the panic-site-explicit mirror of parse_datetime",
+        "theorems": ["no_panic_wildcard", "wmIdx_eq_M", "no_panic_contains_at_least_two", "contains_at_least_two_spec", "no_panic_datetime_captures", "capture_parses_u32", "slice_after_prefix", "offset_timedelta_in_range"],
         "assumptions": [
             "theorems cover the mirrored components only (wildcard_match, contains_at_least_two, the datetime/duration capture unwraps); for every "
             "other entry point the evidence is 'no panic on the explored inputs', counted per entry point in coverage.distribution (ep.<name>.tried/ok/err)",
